@@ -2,7 +2,8 @@ from __future__ import annotations
 
 import logging
 from dataclasses import dataclass
-from typing import Generator, NamedTuple, Type, cast
+from itertools import chain
+from typing import Generator, Iterable, NamedTuple, Type, cast
 
 from lark import Lark, UnexpectedInput
 from lark.visitors import Transformer
@@ -254,28 +255,35 @@ class ASTXpath:
         Use of this file is governed by the BSD 3-clause license that
         can be found in the LICENSE.txt file in the project root.
         """
-        # Using dict, because set is not ordered
-        work: dict[_NodeTraversalInfo | NodeTraversalInfo, None] = {
-            _NodeTraversalInfo(_DUMMY_XPATH_ROOT(root), None, None, None): None
-        }
+        # The root is not stored in any field of any parent
+        root_info = _NodeTraversalInfo(root, None, None, None)
 
-        for el in self._elements:
+        # Using dict, because set is not ordered
+        work: dict[_NodeTraversalInfo | NodeTraversalInfo, None] = {root_info: None}
+
+        for el_idx, el in enumerate(self._elements):
             new_work: dict[_NodeTraversalInfo | NodeTraversalInfo, None] = {}
 
             for n_info in work:
-                if el.anywhere:
-                    for c_info in n_info.node.dfs():
-                        if _match_node_element(c_info, el):
-                            # Insert into our "ordered set" only if not already in there
-                            # this is to prefer first insertion order
-                            if c_info not in new_work:
-                                new_work[c_info] = None
+                candidates: Iterable[_NodeTraversalInfo | NodeTraversalInfo]
+                if el_idx == 0:
+                    # The first element is matched against the root itself
+                    # and, if it may be anywhere, against all of its descendants
+                    candidates = chain([root_info], root.dfs()) if el.anywhere else [root_info]
+                elif el.anywhere:
+                    candidates = n_info.node.dfs()
                 else:
-                    for c, f, i in n_info.node.get_child_nodes_with_field():
-                        c_info = NodeTraversalInfo(c, n_info.node, f, i)
-                        if _match_node_element(c_info, el):
-                            if c_info not in new_work:
-                                new_work[c_info] = None
+                    candidates = (
+                        NodeTraversalInfo(c, n_info.node, f, i)
+                        for c, f, i in n_info.node.get_child_nodes_with_field()
+                    )
+
+                for c_info in candidates:
+                    if _match_node_element(c_info, el):
+                        # Insert into our "ordered set" only if not already in there
+                        # this is to prefer first insertion order
+                        if c_info not in new_work:
+                            new_work[c_info] = None
             work = new_work
 
         yield from [n_info.node for n_info in new_work.keys()]
